@@ -271,8 +271,28 @@ def build_config(cfg):
             if len(_DOC_CACHE) > 8:
                 _DOC_CACHE.clear()
             _DOC_CACHE[key] = (cfg, carry(cfg))
-        return Config(_DOC_CACHE[key][1])
-    return Config(carry(cfg))
+        base = Config(_DOC_CACHE[key][1])
+    else:
+        base = Config(carry(cfg))
+    # the other documented ways of arriving at the same Config
+    how = cfg.get("build", "direct")
+    if how == "from_calls":
+        return Config(list(base.calls))
+    if how == "from_config":
+        return Config(base)
+    if how == "add_calls":
+        calls = list(base.calls)
+        if calls:
+            c = Config(calls[:1])
+            c.add(calls[1:])
+            return c
+    if how == "add_config" and len(cfg["contexts"]) > 1:
+        first = dict(cfg, contexts=cfg["contexts"][:1], build="direct", share_document=False, layout="contexts")
+        rest = dict(cfg, contexts=cfg["contexts"][1:], build="direct", share_document=False, layout="contexts")
+        c = build_config(first)
+        c.add(build_config(rest))
+        return c
+    return base
 
 
 def resolvable(entry):
